@@ -51,7 +51,15 @@ RHS = [("rhs_str", "'x'"), ("rhs_re", "/\\w+/"), ("rhs_ref", "Other"), ("rhs_bas
        ("objref_rrel", "[Other:FQN|^packages*.classes]"), ("objref_rrel_m", "[Other:FQN|+m:a.b]"),
        ("objref_rrel_p", "[Other:ID|+p:..a.(b,~c)*]"), ("objref_rrel_pm", "[Other:ID|+pm:parent(X).a]"),
        ("objref_rrel_fixed", "[Other:ID|'fix'~a.b]"), ("objref_rrel_fixed_dq", '[Other:ID|"it\'s"~a]'),
-       ("objref_rrel_dots", "[Other:ID|...]"), ("objref_rrel_caret", "[Other:ID|^]")]
+       ("objref_rrel_dots", "[Other:ID|...]"), ("objref_rrel_caret", "[Other:ID|^]"),
+       ("rhs_ref_qualified", "pkg.Other"), ("rhs_base_qualified", "ID.x"), ("rhs_base_prefix", "INTx"),
+       ("objref_rrel_digit_ident", "[Other:ID|1a.b]"), ("objref_rrel_parent_digit", "[Other:ID|parent(1B).a]"),
+       ("objref_rrel_fixed_no_tilde", "[Other:ID|'x' a.b]"), ("objref_rrel_tilde_only", "[Other:ID|~a.~b]"),
+       ("objref_rrel_generated", None)]
+RREL_FLAGS = ["", "", "+m:", "+p:", "+mp:", "+pm:", "+mm:", "+pp:", "+mpm:", "+ppm:", "+:", "+x:", "+m", "+ m:"]
+RREL_NAMES = ["a", "b", "parent", "p1", "_x", "élan", "1a", "parents"]
+RREL_TYPES = ["A", "Pkg", "1B", "_T"]
+COMMENT_BODIES = ["", " ", "c", "*", "**", " doc *", "/", "/*", "//", "* /", "a\nb", "*\n*", "'", "/x/", "\\"]
 ASG_OPS = ["=", "+=", "*=", "?="]
 ASG_MODS = [("", ""), ("", ""), ("asg_sep", "[',']"), ("asg_eolterm", "[eolterm]"), ("asg_sep_eolterm", "[';' eolterm]")]
 PARAMS = [("", ""), ("", ""), ("param_noskipws", "[noskipws]"), ("param_ws", "[ws=' \\t']"), ("param_two", "[skipws, ws='\\n']"),
@@ -73,6 +81,14 @@ def elements(draw):
             tags.append("attr_digit_ident")
         op = draw(st.sampled_from(ASG_OPS))
         rt, rhs = draw(st.sampled_from(RHS))
+        if rhs is None:
+            ex = draw(GR.exprs(depth=2, names=RREL_NAMES, types=RREL_TYPES, flags=RREL_FLAGS))
+            rhs = "[Other:ID|" + GR.to_text(ex, draw(st.sampled_from(["", "", " "]))) + "]"
+            fl = ex["flags"]
+            if fl not in ("", "+m:", "+p:", "+mp:", "+pm:"):
+                tags.append("rrel_flags_unusual")
+            if any(ch.isdigit() for ch in rhs.replace("p1", "")):
+                tags.append("rrel_digit_ident")
         mt, mod = draw(st.sampled_from(ASG_MODS))
         tags += [rt] + ([mt] if mt else [])
         return tags, f"{attr}{op}{rhs}{mod}"
@@ -84,12 +100,26 @@ def elements(draw):
 
 
 @st.composite
+def outer_comments(draw, tags):
+    """a comment where no regular-expression match is possible: before the first rule, between rules, after the last"""
+    k = draw(st.integers(0, 9))
+    if k < 6:
+        return ""
+    body = draw(st.sampled_from(COMMENT_BODIES))
+    if k < 8:
+        tags.append("outer_block_comment")
+        return "/*" + body + "*/\n"
+    tags.append("outer_line_comment")
+    return "//" + body.replace("\n", " ") + "\n"
+
+
+@st.composite
 def syntax_texts(draw):
     tags = []
     ht, head = draw(st.sampled_from(HEADERS))
     if ht:
         tags.append(ht)
-    text = head
+    text = draw(outer_comments(tags)) + head + draw(outer_comments(tags))
     for i in range(draw(st.integers(1, 4))):
         name = draw(st.sampled_from(["Model", "Rule1", "X", "9lives"])) + (str(i) if i else "")
         if name.startswith("9"):
@@ -106,6 +136,7 @@ def syntax_texts(draw):
                 els.append(e + draw(st.sampled_from(COMMENTS)))
             alts.append(" ".join(els))
         text += f"{name}{params}:{draw(st.sampled_from(COMMENTS))} " + " | ".join(alts) + " ;\n"
+        text += draw(outer_comments(tags))
     return sorted(set(tags)), text
 
 
@@ -194,7 +225,9 @@ def evaluate(case):
         mark = next((t for t in ("re_backslash", "objref_rule", "objref_bar", "objref_qualified", "objref_rrel_p", "objref_rrel_pm",
                                  "objref_rrel_fixed", "objref_rrel_fixed_dq", "star_sep_eolterm", "plus_eolterm_sep",
                                  "asg_sep_eolterm", "ref_digit_ident", "attr_digit_ident", "rule_name_digit_ident",
-                                 "ref_qualified", "objref_rrel_dots", "objref_rrel_caret") if t in tags), None)
+                                 "ref_qualified", "objref_rrel_dots", "objref_rrel_caret", "rhs_base_qualified", "rhs_base_prefix",
+                                 "rhs_ref_qualified", "objref_rrel_tilde_only", "rrel_flags_unusual", "outer_block_comment",
+                                 "outer_line_comment") if t in tags), None)
         if re.search(r"/(?:\\/|[^/\n])+/\*", text) or "\\\\/" in text:
             # recorded finding F-C24b: textx.tx matches a regex as three tokens ('/' body '/'), so comment skipping in
             # front of the closing slash swallows '/re/*' + a later '*/', and '/\\/' loses its closing slash to the body
@@ -202,7 +235,9 @@ def evaluate(case):
         b = "compiler_accepts_textx_tx_rejects/" + (mark or ("mutated" if case["muts"] else "other"))
         return out.add(b, f"{text!r}: textx.tx: {tx_err}")
     if tx_ok and not lang_ok:
-        b = "textx_tx_accepts_compiler_rejects/" + ("empty" if not text.strip() else ("mutated" if case["muts"] else "other"))
+        mark = next((t for t in ("objref_rrel_fixed_no_tilde", "objref_rrel_digit_ident", "objref_rrel_parent_digit",
+                                 "rrel_digit_ident", "rrel_flags_unusual", "outer_block_comment") if t in tags), None)
+        b = "textx_tx_accepts_compiler_rejects/" + ("empty" if not text.strip() else ("mutated" if case["muts"] else (mark or "other")))
         return out.add(b, f"{text!r}: compiler: {lang_err}")
     if lang_ok and tx_ok:
         names = []
